@@ -3,8 +3,10 @@
 (*  - ChooseCall / ChooseLayouts enumerate catalogue x dimensionality x option x     *)
 (*    (layout assignment, value-class assignment); every built invocation is exported*)
 (*    and executed on the real function with arguments constructed in exactly that   *)
-(*    layout and holding values of exactly that class;                               *)
-(*  - Invoke is the property-level action: the call returns or raises and every      *)
+(*    layout and holding values of exactly that class; the assignments also cover     *)
+(*    exotic element kinds, a size class per argument and the deliberate rejections  *)
+(*    (FrExpectReject is exported with the case);                                    *)
+(*  - Invoke is the property-level action: the call returns or is rejected and every  *)
 (*    argument not documented as in-place is UNCHANGED;                              *)
 (*  - MAcquire / MWork / MReturn are the implementation-shaped path (alias or copy,  *)
 (*    then possibly an in-place conversion of what the callee works on - for some    *)
